@@ -29,6 +29,8 @@ EXPLANATION = (
     "screening constants are literals <= 1e-15.  Declined: the 1-D binomial kernel, primitive normalisation, "
     "assembly arithmetic, positive semidefiniteness, translation invariance (numerical identities)."
 )
+TECHNIQUE += '; def-use check of the screening bound'
+EXPLANATION += " Added to R6: the shell-pair screening bound is computed from a min-reduction over each shell's exponents (the bound must dominate every primitive pair)."
 TRUSTED = ["CPython ast parser", "closed-form Gaussian moment integrals (double factorials)", "uniqueness of the harmonic polynomial with given (l, |m|, y-parity) up to scale"]
 
 TOL = 1e-12
